@@ -111,6 +111,57 @@ func (w *World) pathAvoiding(from, to *ssa.BasicBlock, stop func(ssa.Instruction
 	return visit(from)
 }
 
+// eofOrErrorHelper: a method of the parser that checks for trailing input on behalf of the entry points: one test of
+// the current token against <eof> dominates all its returns, every path from the "input remains" side to a return
+// appends to Parser.errors, and nothing in it reads a token.
+func (w *World) eofOrErrorHelper(fn *ssa.Function) bool {
+	if fn.Blocks == nil || fnPkgPath(fn) != modRoot || fn.Signature.Recv() == nil || !w.isParserPtr(fn.Signature.Recv().Type()) {
+		return false
+	}
+	var test *ssa.If
+	remain := 0
+	for _, b := range fn.Blocks {
+		iff, ok := b.Instrs[len(b.Instrs)-1].(*ssa.If)
+		if !ok {
+			continue
+		}
+		if k, eqOnTrue, _, ok := w.kindTest(iff.Cond); ok && k == "<eof>" {
+			if test != nil {
+				return false
+			}
+			test = iff
+			if eqOnTrue {
+				remain = 1
+			}
+		}
+	}
+	if test == nil {
+		return false
+	}
+	for _, b := range fn.Blocks {
+		for _, in := range b.Instrs {
+			if c, ok := in.(*ssa.Call); ok {
+				if _, isBuiltin := c.Call.Value.(*ssa.Builtin); isBuiltin {
+					continue
+				}
+				callee := c.Call.StaticCallee()
+				if callee == nil || (corePkg(fnPkgPath(callee)) && callee.Name() != "errorfAtToken") {
+					return false
+				}
+			}
+		}
+		if _, ok := b.Instrs[len(b.Instrs)-1].(*ssa.Return); ok {
+			if !(test.Block() == b || test.Block().Dominates(b)) {
+				return false
+			}
+			if w.pathAvoiding(test.Block().Succs[remain], b, w.recordsError) {
+				return false
+			}
+		}
+	}
+	return true
+}
+
 func ruleC09R1(w *World, r *Report) {
 	const rule = "C09/R1"
 	r.rule(rule, "Parse* entry points: a nil error is returned only on the 'Parser.errors is empty' edge, and only after a test of the current token against <eof> whose 'input remains' side must append to Parser.errors", 9)
@@ -186,16 +237,7 @@ func ruleC09R1(w *World, r *Report) {
 					}
 				}
 			}
-			if eofIf == nil {
-				r.bad(rule, construct, where, "no test of the current token against <eof> dominates this nil-error return: unconsumed input would be accepted silently")
-				continue
-			}
-			if w.pathAvoiding(eofIf.Block().Succs[remainSucc], lenIf.Block(), w.recordsError) {
-				r.bad(rule, construct, where, "on the 'current token is not <eof>' side of the test at "+w.pos(eofIf.Pos())+" a path reaches the error-count test without appending to Parser.errors")
-				continue
-			}
-			// nothing may consume a token between the eof test and the return
-			if !w.pathAvoiding(eofIf.Block().Succs[1-remainSucc], b, func(in ssa.Instruction) bool {
+			consuming := func(in ssa.Instruction) bool {
 				c, ok := in.(*ssa.Call)
 				if !ok {
 					return false
@@ -205,7 +247,65 @@ func ruleC09R1(w *World, r *Report) {
 				}
 				callee := c.Call.StaticCallee()
 				return callee == nil || (corePkg(fnPkgPath(callee)) && callee.Name() != "errorfAtToken")
-			}) {
+			}
+			if eofIf == nil {
+				// the test may live in a helper shared by the entry points: a call, dominating the error-count test, of a
+				// function that returns only with the current token at <eof> or with an error appended, and reads no token
+				var helper *ssa.Call
+			search:
+				for d := lenIf.Block(); d != nil; d = d.Idom() {
+					for i := len(d.Instrs) - 1; i >= 0; i-- {
+						c, ok := d.Instrs[i].(*ssa.Call)
+						if !ok {
+							continue
+						}
+						if callee := c.Call.StaticCallee(); callee != nil && w.eofOrErrorHelper(callee) {
+							helper = c
+							break search
+						}
+						if consuming(c) {
+							break search
+						}
+					}
+				}
+				if helper != nil {
+					clean := true
+					hb := helper.Block()
+					after := false
+					for _, in := range hb.Instrs {
+						if in == ssa.Instruction(helper) {
+							after = true
+							continue
+						}
+						if after && consuming(in) {
+							clean = false
+						}
+					}
+					if hb != lenIf.Block() {
+						for x := lenIf.Block(); x != nil && x != hb; x = x.Idom() {
+							for _, in := range x.Instrs {
+								if consuming(in) {
+									clean = false
+								}
+							}
+						}
+					}
+					if !clean {
+						r.bad(rule, construct, where, "a call that may move the lexer lies between the <eof> check in "+funcName(helper.Call.StaticCallee())+" and this return")
+						continue
+					}
+					r.ok(rule, construct, where, fmt.Sprintf("guarded by len(p.errors) test at %s (empty edge) after the call of %s at %s, which returns only at <eof> or with an error appended", w.pos(lenIf.Pos()), funcName(helper.Call.StaticCallee()), w.pos(helper.Pos())))
+					continue
+				}
+				r.bad(rule, construct, where, "no test of the current token against <eof> dominates this nil-error return: unconsumed input would be accepted silently")
+				continue
+			}
+			if w.pathAvoiding(eofIf.Block().Succs[remainSucc], lenIf.Block(), w.recordsError) {
+				r.bad(rule, construct, where, "on the 'current token is not <eof>' side of the test at "+w.pos(eofIf.Pos())+" a path reaches the error-count test without appending to Parser.errors")
+				continue
+			}
+			// nothing may consume a token between the eof test and the return
+			if !w.pathAvoiding(eofIf.Block().Succs[1-remainSucc], b, consuming) {
 				r.bad(rule, construct, where, "a call that may move the lexer lies between the <eof> test and this return")
 				continue
 			}
